@@ -155,6 +155,7 @@ def jump_cases(rng, out, ncfg, njump):
                    birth=rng.choice(['uniform', 'normal', 'lognormal']), successive=rng.random() < 0.4, T=10,
                    kcov=rng.choice([1.0, 4.0, 9.0]))
         cfg['td_k'] = 1 if _ % 3 else rng.choice([2, 3])         # slow in-model proposals, met at every phase of their clock
+        cfg['mixseed'] = _ % 2                                   # every other proposal: births built from one shared dictionary
         td = C.td_proposal(cfg)
         td.model_proposal.cov = numpy.array([cfg['kcov']]) if hasattr(td.model_proposal, 'cov') else None
         try:
@@ -231,6 +232,10 @@ def chain_runs(rng, out, nruns, thorough):
                 early = pickle.loads(pickle.dumps(s.state))
             if it == events[0]:
                 s.clear()
+                if cfg['mixseed'] % 3 == 0:
+                    # a restart: new start positions (another pattern of active components) on the cleared sampler
+                    s.start_position = C.start_position(cfg, random.Random(cfg['mixseed'] + 77))
+                    out.count('restart_after_clear')
             if it == events[1]:
                 if how == 'rewind':                      # load an earlier state into the running sampler
                     s.set_state(early)
